@@ -257,6 +257,8 @@ impl<B: Region> BlockQueue<B> {
                 }
             });
         if let Ok(i) = i {
+            #[cfg(feature = "mmtk_verif")]
+            crate::verif::fp(crate::verif::FP_BLOCKQUEUE_POP);
             Some(self.get_entry(i - 1))
         } else {
             None
@@ -361,6 +363,8 @@ impl<B: Region> BlockPool<B> {
             self.count.fetch_sub(1, Ordering::SeqCst);
             Some(block)
         } else {
+            #[cfg(feature = "mmtk_verif")]
+            crate::verif::fp(crate::verif::FP_BLOCKQUEUE_POP);
             let mut global_freed_blocks = self.global_freed_blocks.write();
             // Retry fast-alloc
             if let Some(block) = head_global_freed_blocks.as_ref().and_then(|q| q.pop()) {
